@@ -35,6 +35,10 @@ def ctx_name(n):
     return CI_CTX if n == 0 else f'ctx{n}'
 
 
+class FaultInjected(Exception):
+    """a GitHub request that fails (connection error / 5xx) at a scripted point"""
+
+
 class FakeGH:
     """ground truth of GitHub + the API surface ci.github uses"""
 
@@ -45,6 +49,8 @@ class FakeGH:
         self.prs = {}           # number -> dict(head, author_ok, labels(list of 5 bools), decision, open)
         self.statuses = {}      # commit sha -> {context name: (required, raw state, typename)}
         self.reject_merges = 0
+        self.fail_refreshes = 0     # the next n `getitem(refs/heads/…)` raise
+        self.fail_posts = 0         # the next n status posts raise gidgethub.HTTPException (caught by post_github_status)
         self.merge_log = []
         self.order_desc = False
 
@@ -56,6 +62,10 @@ class FakeGH:
     async def getitem(self, url):
         await self.h.api('getitem ' + url)
         assert url == f'/repos/{REPO}/git/refs/heads/{BRANCH}', url
+        if self.fail_refreshes > 0:
+            self.fail_refreshes -= 1
+            self.h.rec_gh['failed'] = True
+            raise FaultInjected('GET refs/heads failed')
         self.h.rec_gh['target'] = self.main
         return {'object': {'sha': str(self.main)}}
 
@@ -85,8 +95,13 @@ class FakeGH:
         if m:
             sha = int(m.group(1))
             assert data['context'] == CI_CTX
-            self.set_status(sha, CI_CTX, self.h.case.get('ci_required', True), data['state'].upper())
             self.h.outs.append(f"post:{self.h.pr_of_post(sha, data)}:{sha}:{data['state']}")
+            self.h.ci_sent[sha] = data['state'].upper()
+            if self.fail_posts > 0:
+                self.fail_posts -= 1
+                self.h.tags.append('fault:post')
+                raise self.h.g.gidgethub.HTTPException()      # the status does not reach GitHub; CI logs and goes on
+            self.set_status(sha, CI_CTX, self.h.case.get('ci_required', True), data['state'].upper())
             return {}
         if re.fullmatch(rf'/repos/{REPO}/issues/\d+/assignees', url):
             return {}
@@ -239,6 +254,7 @@ class History:
         self.pending_flags = []
         self.in_block = False
         self.refreshed_since_merge = True
+        self.ci_sent = {}      # head sha -> last ci-test state CI sent (whether or not the request reached GitHub)
 
     # -- hooks ----------------------------------------------------------------------------------------------------------
     async def api(self, what):
@@ -266,11 +282,17 @@ class History:
                 msgs.append(f'not approved (reviewDecision {seen["decision"]})')
             if seen['labels'][1] or seen['labels'][2]:
                 msgs.append('labelled do-not-merge (WIP / stacked PR)')
-            # other systems' required checks: as GitHub last reported them to CI; the CI's own context: what is on the head commit now
-            # (CI itself posts it, possibly after its last refresh)
+            # other systems' required checks: as GitHub last reported them to CI; the CI's own context: the last state CI sent for the
+            # head commit (a post that did not reach GitHub is CI's publication problem — whether the tests really passed is what the
+            # batch condition below checks against the batch service)
             req = {c: RAW_CLASS[raw] for (c, r, raw) in seen['checks'] if r and c != 0}
-            st = self.gh.statuses.get(seen['head'], {}).get(CI_CTX)
-            req[0] = RAW_CLASS[st[1]] if st else 'missing'
+            sent = self.ci_sent.get(seen['head'])            # sent by CI since its last refresh
+            if sent is None:
+                sent = next((raw for (c, r, raw) in seen['checks'] if c == 0), None)     # else: what GitHub reported at that refresh
+            if sent is None:
+                st = self.gh.statuses.get(seen['head'], {}).get(CI_CTX)
+                sent = st[1] if st else None
+            req[0] = RAW_CLASS[sent] if sent else 'missing'
             bad = sorted(f'{ctx_name(c)}={v}' for c, v in req.items() if v != 'success')
             if bad:
                 msgs.append('required checks of the head commit not all successful: ' + ', '.join(bad))
@@ -348,11 +370,17 @@ class History:
             try:
                 await o_gh(gh)
             finally:
-                r = self.rec_gh
+              r = self.rec_gh
+              if r.get('failed'):
+                self.tags.append('fault:refresh')
+                self.emit('ghfail')
+                await self.end_block()
+              else:
                 listing = r.get('listing', [])
                 parts = [f"gh {r.get('target', 0)} {len(listing)}"]
                 self.last_seen_target = r.get('target')
                 self.refreshed_since_merge = True
+                self.ci_sent = {}
                 self.last_seen = {}
                 for (n, head, auth, labels) in listing:
                     gq = r.get('graphql', {}).get(n, {'decision': 'NONE', 'checks': []})
@@ -443,6 +471,10 @@ class History:
             self.fail_builds += 1
         elif t == 'reject_merge':
             gh.reject_merges += 1
+        elif t == 'fault_refresh':
+            gh.fail_refreshes += 1
+        elif t == 'fault_post':
+            gh.fail_posts += 1
         elif t in ('notify_gh', 'notify_batch', 'update'):
             wb = self.wb
             f = {'notify_gh': wb.notify_github_changed, 'notify_batch': wb.notify_batch_changed, 'update': wb.update}[t]
@@ -464,8 +496,8 @@ class History:
                 self.mid = [tuple(x) for x in (op[1] if len(op) > 1 else [])]
             try:
                 await f(self.db, self.bc, gh, False)
-            except AssertionError:
-                pass      # what the webhook handler / update_loop see (logged, 500); the flags stay set
+            except (AssertionError, FaultInjected):
+                pass      # what the webhook handler / update_loop see (logged, 500); the flags stay as the aborted pass left them
             if not nested:
                 self.mid = []
         else:
@@ -557,7 +589,7 @@ class C30(Prop):
     budget = {'quick': 500, 'thorough': 8000}
     search_budget = {'quick': 600, 'thorough': 8000}
     rule = ('case = history of world events (open/push/close PR, review decision, labels, status of an external check, target-branch push, '
-            'batch completion, scripted checkout failure / merge rejection) and CI entry points (github webhook, batch callback, periodic '
+            'batch completion, scripted checkout failure / merge rejection / failing GitHub refresh / failing status post) and CI entry points (github webhook, batch callback, periodic '
             'update), optionally with world events applied at the k-th API call inside an update; head shas from a small pool so that PRs can '
             'share a head; non-trivial = at least one merge request or a fired is_mergeable assertion; distinct by the trace of event outputs')
     trusted = ['fake GitHub (REST refs/pulls/statuses/merge + GraphQL reviewDecision/statusCheckRollup with pagination) and fake batch client '
@@ -693,6 +725,10 @@ class C30(Prop):
                 return ['fail_build']
             if r < 0.97:
                 return ['reject_merge']
+            if r < 0.978:
+                return ['fault_refresh']
+            if r < 0.984:
+                return ['fault_post']
             if r < 0.985:
                 open_prs.remove(n)
                 return ['close', n]
@@ -705,9 +741,34 @@ class C30(Prop):
         ops.append(['update', []])
         return {'ci_required': rng.random() < 0.7, 'ci_last': rng.random() < 0.3, 'order_desc': rng.random() < 0.3, 'ops': ops}
 
+    def gen_directed(self, rng):
+        """several PRs become mergeable against the same target commit; around the merge a GitHub request fails (the refresh right
+        after the merge, a status post, or the merge itself) and only batch callbacks arrive before the next full poll"""
+        k = rng.choice([2, 2, 3])
+        ops = [['open', i, 500 + 10 * i, 1, '00000'] for i in range(1, k + 1)]
+        ops += [['review', i, 'APPROVED'] for i in range(1, k + 1)]
+        ops.append(['notify_gh', []])
+        pending = k
+        while pending:
+            ops.append(['done', 0, 1])
+            pending -= 1
+            if pending and rng.random() < 0.5:
+                ops.append(['notify_batch', []])
+        ops.append(rng.choice([['fault_refresh'], ['fault_refresh'], ['fault_post'], ['reject_merge'], ['fault_refresh']]))
+        if rng.random() < 0.3:
+            ops.append(['fault_refresh'])
+        ops.append(rng.choice([['notify_batch', []], ['notify_batch', []], ['update', []]]))
+        for _ in range(rng.choice([1, 2, 3])):
+            ops.append(rng.choice([['notify_batch', []], ['notify_batch', []], ['done', 0, 1], ['notify_gh', []], ['fault_refresh'], ['target']]))
+        ops += [['notify_batch', []], ['update', []]]
+        return {'ci_required': rng.random() < 0.7, 'ci_last': False, 'order_desc': rng.random() < 0.3, 'ops': ops}
+
     def cases(self, rng, n, tier):
-        for _ in range(n):
-            yield self.gen_history(rng, rng.choice([6, 10, 16, 24, 40]))
+        for i in range(n):
+            if i % 8 == 7:
+                yield self.gen_directed(rng)
+            else:
+                yield self.gen_history(rng, rng.choice([6, 10, 16, 24, 40]))
 
     def shrink(self, c, fails):
         if not fails(c):
